@@ -56,10 +56,15 @@ def snapshot(root):
     return out
 
 
+# every extension the library reads as SDL is used for the schema file (CliGenerate!SchemaNameFor)
+SCHEMA_NAME = {"ops.graphql": "schema.graphql", "user.query.graphql": "schema.graphqls", "nested/dir/ops.gql": "schema.gql",
+               "link.graphql": "schema.graphql"}
+
+
 def argv(case, root):
     f = case["flags"]
     q = os.path.join(root, "q", case["qname"])
-    s = os.path.join(root, "schema.graphql")
+    s = os.path.join(root, SCHEMA_NAME[case["qname"]])
     a = ["generate", q, "--schema-path", s]
     if f["variables_derives"]:
         a += ["--variables-derives", f["variables_derives"]]
@@ -117,7 +122,7 @@ def setup(root, case):
             open(os.path.join(root, "store", "3f9a1c07"), "w").write(qtext)
             os.symlink(os.path.join("..", "store", "3f9a1c07"), os.path.join(root, "q", case["qname"]))
     else:
-        open(os.path.join(root, "schema.graphql"), "w").write(stext)
+        open(os.path.join(root, SCHEMA_NAME[case["qname"]]), "w").write(stext)
         if case["program"] != "missingQuery":
             open(os.path.join(root, "q", case["qname"]), "w").write(qtext)
     # neighbours that must not be touched
@@ -194,7 +199,7 @@ def main(tier, replay=None, selftest=False):
         modified = sorted(k for k in after if k in before and after[k] != before[k])
         deleted = sorted(k for k in before if k not in after)
         runs.append((case, root, p, created, modified, deleted, prerun))
-        genjobs.append({"id": n, "schema_path": os.path.join(root, "schema.graphql"),
+        genjobs.append({"id": n, "schema_path": os.path.join(root, SCHEMA_NAME[case["qname"]]),
                         "query_path": os.path.join(root, "q", case["qname"]), "options": lib_options(case), "want_tokens": True})
     libres, _ = vlib.gqlv("gen", genjobs)
     for (case, root, p, created, modified, deleted, prerun), lr in zip(runs, libres):
